@@ -54,6 +54,36 @@ impl Env {
     }
 }
 
+/// A sanitised result must BE a set of the canonical context, not only carry the right BDD: its projections and sizes
+/// (which go through the set's own lists of state / parameter variables) must be those of the same BDD wrapped with the
+/// canonical context.
+pub fn set_api_problem(clean: &GraphColoredVertices, canon: &biodivine_lib_param_bn::symbolic_async_graph::SymbolicContext) -> Option<String> {
+    use biodivine_lib_param_bn::biodivine_std::traits::Set;
+    let reference = GraphColoredVertices::new(clean.as_bdd().clone(), canon);
+    let r = guarded(AssertUnwindSafe(|| {
+        if clean.colors().as_bdd() != reference.colors().as_bdd() {
+            return Some("colors() of the sanitised result is not the colour projection of its BDD in the canonical context".to_string());
+        }
+        if clean.vertices().as_bdd() != reference.vertices().as_bdd() {
+            return Some("vertices() of the sanitised result is not the state projection of its BDD in the canonical context".to_string());
+        }
+        if clean.approx_cardinality() != reference.approx_cardinality() || clean.exact_cardinality() != reference.exact_cardinality() {
+            return Some(format!("cardinality of the sanitised result is {} / {}, of its BDD in the canonical context {} / {}", clean.approx_cardinality(), clean.exact_cardinality(), reference.approx_cardinality(), reference.exact_cardinality()));
+        }
+        if clean.is_singleton() != reference.is_singleton() || clean.is_empty() != reference.is_empty() {
+            return Some("is_singleton() / is_empty() of the sanitised result differ from those of its BDD in the canonical context".to_string());
+        }
+        if clean.pick_singleton().as_bdd() != reference.pick_singleton().as_bdd() {
+            return Some("pick_singleton() of the sanitised result differs from that of its BDD in the canonical context".to_string());
+        }
+        None
+    }));
+    match r {
+        Ok(v) => v,
+        Err(p) => Some(format!("using the sanitised result through the set API panics: {p}")),
+    }
+}
+
 pub fn check(env: &Env, f: &F) -> Vec<String> {
     let d = f.qdepth();
     let text = f.show(&env.ctxs[0].user);
@@ -82,6 +112,9 @@ pub fn check(env: &Env, f: &F) -> Vec<String> {
         if !ctx.is_canonical_shape(&clean) {
             bad.push(format!("k={k}: sanitised result has {} BDD variables, the canonical encoding has {}", clean.as_bdd().num_vars(), ctx.canon.bdd_variable_set().num_vars()));
             continue;
+        }
+        if let Some(w) = set_api_problem(&clean, &ctx.canon) {
+            bad.push(format!("k={k}: {w}"));
         }
         let cm = ctx.masks_of_canonical(&clean);
         if dm != cm {
@@ -269,6 +302,10 @@ pub fn run(tier: &str) -> Result<Report, String> {
                                     w = Some(format!("position {pos} ({}): sanitised {:?}, raw {:?}, oracle {:?}", texts[*idx], cm, dm, expected[*idx]));
                                     break;
                                 }
+                                if let Some(p) = set_api_problem(&clean[pos], &ctx.canon).or_else(|| set_api_problem(&clean2[pos], &ctx.canon)) {
+                                    w = Some(format!("position {pos} ({}): {p}", texts[*idx]));
+                                    break;
+                                }
                             }
                         }
                         w
@@ -380,6 +417,8 @@ pub fn run(tier: &str) -> Result<Report, String> {
                                         what = Some(format!("`{}` (k={k}, batch position {i}): sanitised result has {} elements, the raw result {}", texts[i], clean[i].exact_cardinality(), dirty[i].exact_cardinality()));
                                     } else if &m != sg.as_bdd() {
                                         what = Some(format!("`{}` (k={k}): model_check_extended_formula has {} elements, the raw result {}", texts[i], sg.exact_cardinality(), dirty[i].exact_cardinality()));
+                                    } else if let Some(w) = set_api_problem(&clean[i], &canon).or_else(|| set_api_problem(&sg, &canon)) {
+                                        what = Some(format!("`{}` (k={k}): {w}", texts[i]));
                                     }
                                 }
                                 (None, _) => what = Some(format!("`{}` (k={k}): the raw result cannot be expressed over the canonical variables", texts[i])),
@@ -428,7 +467,7 @@ pub fn run(tier: &str) -> Result<Report, String> {
         rep.set("wide_models", json!(wide));
     }
     rep.sample(json!({"network": "con2", "formula": "(!{x}: (3{y}: ((@{x}: (AX {y})) & (EF {x}))))", "k": [2, 3, 5], "check": "model_check_formula == model_check_formula_dirty point-wise; BDD over the variables of SymbolicContext::new; identical for all k; usable with SymbolicAsyncGraph::new"}));
-    rep.rule = format!("every closed plain formula with <= {m} nodes and every plain template formula and the two-operator nest family (every binary operator over every unary operator in either operand position, also with a state variable or a closed fixed-point sub-formula inside) on {which:?} (including networks with unusual names and three networks built programmatically with variables declared in non-lexicographic order), on graphs with k = d, d+1, d+3 spare variable sets (d = quantifier nesting depth): sanitised result == raw result on every state x valid colour == explicit-state oracle; expressed over exactly the variables of SymbolicContext::new(network); subset of and usable with SymbolicAsyncGraph::new(network); BDD-identical for all k; every multi-colour network additionally with the unit set of the graph restricted (SymbolicAsyncGraph::restrict) to every second valid colour, where raw and sanitised results must also stay inside the restricted unit set; and every ordered pair and triple over a pool of 8 formulae of different heights through model_check_multiple_formulae vs model_check_multiple_formulae_dirty, position by position; plus two-network histories (ordered pairs of 5 networks with identical variable names and parameter signature, sanitising calls on the first, then all obligations for 7 formulae on the second, on one fresh OS thread); plus the extended entry points with context sets inside and outside the valid colours (9 formulae, k = 1, 2, 4, single and batch) against lib-param-bn's transfer of the raw result; plus wide synthetic models (> 2^53 pairs; results that are everything but one state, single states, ...): sanitised == raw result transferred to the canonical context by lib-param-bn, single and batch entry points, k = 1, 3. distinct_nontrivial = number of (formula, network) pairs");
+    rep.rule = format!("every closed plain formula with <= {m} nodes and every plain template formula and the two-operator nest family (every binary operator over every unary operator in either operand position, also with a state variable or a closed fixed-point sub-formula inside) on {which:?} (including networks with unusual names and three networks built programmatically with variables declared in non-lexicographic order), on graphs with k = d, d+1, d+3 spare variable sets (d = quantifier nesting depth): sanitised result == raw result on every state x valid colour == explicit-state oracle; expressed over exactly the variables of SymbolicContext::new(network) and a proper set of that context (colors(), vertices(), cardinalities, pick_singleton() equal those of its BDD wrapped with the canonical context); subset of and usable with SymbolicAsyncGraph::new(network); BDD-identical for all k; every multi-colour network additionally with the unit set of the graph restricted (SymbolicAsyncGraph::restrict) to every second valid colour, where raw and sanitised results must also stay inside the restricted unit set; and every ordered pair and triple over a pool of 8 formulae of different heights through model_check_multiple_formulae vs model_check_multiple_formulae_dirty, position by position; plus two-network histories (ordered pairs of 5 networks with identical variable names and parameter signature, sanitising calls on the first, then all obligations for 7 formulae on the second, on one fresh OS thread); plus the extended entry points with context sets inside and outside the valid colours (9 formulae, k = 1, 2, 4, single and batch) against lib-param-bn's transfer of the raw result; plus wide synthetic models (> 2^53 pairs; results that are everything but one state, single states, ...): sanitised == raw result transferred to the canonical context by lib-param-bn, single and batch entry points, k = 1, 3. distinct_nontrivial = number of (formula, network) pairs");
     Ok(rep)
 }
 
